@@ -36,6 +36,7 @@ SHAPES = {
     "q2,b3|m2": (("q", "b"), (2, 3), ("m",), (2,)),
     "q2|m3,c2": (("q",), (2,), ("m", "c"), (3, 2)),
     "q2,b2|m2,c2": (("q", "b"), (2, 2), ("m", "c"), (2, 2)),
+    "q150|m2": (("q",), (150,), ("m",), (2,)),  # more than 128 feasible restricted-state combinations
     "q2|": (("q",), (2,), (), ()),
     "q2,b3|": (("q", "b"), (2, 3), (), ()),
 }
@@ -58,6 +59,8 @@ def CAPS(tier):
 
 
 def _configs(ncells):
+    if ncells > 64:
+        return [dict(BASE_CFG), dict(BASE_CFG, extras=False), dict(BASE_CFG, last=True)]
     all_cfgs = [dict(split=s, extras=e, last=l, jit=j) for s in ("one", "two", "aux") for e in (True, False) for l in (False, True) for j in (False, True)]
     if ncells <= 6:
         return all_cfgs
@@ -71,6 +74,11 @@ def _configs(ncells):
 
 
 def _tables(ncells, tier, base_cfg):
+    if ncells > 64:
+        # large shape: a handful of structured tables (all true, first/last states empty, alternating)
+        allt = 2 ** ncells - 1
+        alt = int("10" * (ncells // 2), 2)
+        return [allt, allt >> 6, allt ^ 0b111111, alt, allt ^ alt, allt ^ (1 << (ncells // 2))], True
     full = list(range(2 ** ncells))
     if ncells <= 8 or (tier == "thorough" and base_cfg):
         return full, False
@@ -293,7 +301,7 @@ def run_case(case):
         if info.axis_names[:1] != ["state_index"]:
             problems.append(f"axis names {info.axis_names}")
         if problems and not viols:
-            viols.append(violation("space", "compare", "VALUE", f"{sname} {cfg} truth table {t:0{int(np.prod(shape))}b}: " + "; ".join(problems), split=cfg["split"]))
+            viols.append(violation("space", "compare", "VALUE", f"{sname} {cfg} truth table {t:0{int(np.prod(shape))}b}"[:200] + ": " + "; ".join(p_[:300] for p_ in problems), split=cfg["split"]))
     return outcome(
         status="violation" if viols else "ok",
         violations=viols,
